@@ -447,8 +447,10 @@ namespace xsimd
     XSIMD_INLINE typename std::enable_if<std::is_integral<T0>::value && std::is_integral<T1>::value, T0>::type
     rotl(T0 x, T1 shift) noexcept
     {
-        constexpr auto N = std::numeric_limits<T0>::digits;
-        return (x << shift) | (x >> (N - shift));
+        // rotate the full-width bit pattern (logical right shift, also for signed T0)
+        using U0 = typename std::make_unsigned<T0>::type;
+        constexpr auto N = std::numeric_limits<U0>::digits;
+        return static_cast<T0>(static_cast<U0>(static_cast<U0>(x) << shift) | static_cast<U0>(static_cast<U0>(x) >> (N - shift)));
     }
 
     template <class T0, class T1>
